@@ -265,6 +265,25 @@ pub fn run<D: Dec>(rep: &mut Report) {
     let mut queue: VecDeque<String> = VecDeque::new();
     states.insert(format!("{:?}", fresh), (fresh.clone(), vec![], 0));
     queue.push_back(format!("{:?}", fresh));
+    // Default::default() must be the initial condition too
+    if let Ok(dd) = guarded(D::default) {
+        if dd != fresh {
+            if let Some((cont, want, gotc)) = first_behavioural_difference(&dd) {
+                rep.violate(
+                    format!("C07|{}|default-not-initial|state={:?}", set_name(set), dd),
+                    format!(
+                        "{}: a decoder built with Default::default() is {:?}; bytes [{}] give {} where new() gives {}",
+                        set_name(set),
+                        dd,
+                        hex_bytes(&cont),
+                        enc_res_str(gotc, &uni),
+                        enc_res_str(want, &uni)
+                    ),
+                    replay(set, &cont, &enc_res_str(want, &uni), &enc_res_str(gotc, &uni)),
+                );
+            }
+        }
+    }
     let mut transitions = 0u64;
     let mut err_then_cont: BTreeSet<String> = BTreeSet::new();
     let mut twin_checks = 0u64;
